@@ -4113,6 +4113,13 @@ class FlowIR(object):
             if value is not None:
                 return int(value)
 
+        def to_bool(value):
+            # VV: bool("false") and bool("anything") are True; only accept actual booleans/integers and the
+            # textual representations of booleans (raises KeyError for any other string)
+            if isinstance(value, string_types):
+                return str_to_bool(value)
+            return bool(value)
+
         expected_types = {
             'command': {
                 'arguments': str,
@@ -4125,16 +4132,16 @@ class FlowIR(object):
             'workflowAttributes': {
                 'restartHookFile': str,
                 'replicate': int,
-                'aggregate': bool,
-                'isMigratable': bool,
-                'isMigrated': bool,
+                'aggregate': to_bool,
+                'isMigratable': to_bool,
+                'isMigrated': to_bool,
                 'repeatInterval': int,
                 'repeatRetries': int,
-                'isRepeat': bool,
+                'isRepeat': to_bool,
                 # VV: when maxRestarts is None, the Engine/RepeatingEngine objects decides max number of restarts
                 'maxRestarts': optional_int,
                 'optimizer': {
-                    'disable': bool,
+                    'disable': to_bool,
                     'exploitChance': float,
                     'exploitTarget': float,
                     'exploitTargetLow': float,
